@@ -825,11 +825,11 @@ class InClass:
                             akey = v.get(sk)
                         else:
                             akey = getattr(v, sk, None)
-                        if not basic_type(type(akey)):
+                        if not basic_type(type(akey)) and callable(akey):
                             try:
                                 akey = akey()
                             except Exception:
-                                pass
+                                akey = _Smallest
                         if akey is None:
                             akey = _Smallest
                         k.append(akey)
@@ -838,7 +838,7 @@ class InClass:
                         k = v.get(sort)
                     else:
                         k = getattr(v, sort, None)
-                    if not basic_type(type(k)):
+                    if not basic_type(type(k)) and callable(k):
                         try:
                             k = k()
                         except Exception:
